@@ -6,6 +6,9 @@
 
 namespace ref {
 
+static inline bool bad(Real x) { return !(x == x) || std::isinf((double)x); }
+
+
 static const Real PI_L = 3.14159265358979323846264338327950288419716939937510L;
 
 Block make_block(Kind k, int n) {
@@ -370,6 +373,35 @@ Vec Group::act(const Mat& M, const Vec& p) const {
   return out;
 }
 
+Real Group::diff_act_terms(const Mat& M, const Vec& p, const Vec& y) const {
+  Real m = 0;
+  for (size_t b = 0; b < blocks.size(); ++b) {
+    const Block& B = blocks[b];
+    Vec h = Vec::Zero(B.N);
+    for (int i = 0; i < B.Dim; ++i) h(i) = p(offDim[b] + i);
+    switch (B.kind) {
+      case RN: h(B.n) = 1; break;
+      case SO2: case SO3: break;
+      case SE2: h(2) = 1; break;
+      case SE3: h(3) = 1; break;
+      case SE23: h(3) = 1; h(4) = 0; break;
+      case SGAL3: h(3) = 0; h(4) = 1; break;
+    }
+    const int o = offN[b];
+    for (int i = 0; i < B.Dim; ++i) {
+      Real e = 0, bound = 0;
+      for (int k = 0; k < B.N; ++k) { e += M(o + i, o + k) * h(k); bound += (std::fabs(M(o + i, o + k)) + (is_rot_entry(o + i, o + k) ? 1 : 0)) * std::fabs(h(k)); }
+      Real yi = y(offDim[b] + i);
+      if (bad(yi) || bad(e)) return std::numeric_limits<Real>::infinity();
+      Real d = std::fabs(yi - e);
+      if (d == 0) continue;
+      if (bound == 0) return std::numeric_limits<Real>::infinity();
+      if (d / bound > m) m = d / bound;
+    }
+  }
+  return m;
+}
+
 Mat Group::Jr(const Vec& t) const {
   Mat a = -ad(t);
   Mat J = Mat::Identity(DoF, DoF), T = Mat::Identity(DoF, DoF);
@@ -501,7 +533,6 @@ Real Group::max_rot_angle(const Vec& t) const {
   return a;
 }
 
-static inline bool bad(Real x) { return !(x == x) || std::isinf((double)x); }
 
 Real Group::diffM(const Mat& A, const Mat& B, Real lin) const {
   Real m = 0;
@@ -524,6 +555,23 @@ Real Group::difft(const Vec& a, const Vec& b, Real lin) const {
     if (!mk[i]) d /= lin;
     if (d > m) m = d;
   }
+  return m;
+}
+
+Real Group::diff_prod_terms(const Mat& A, const Mat& B, const Mat& P) const {
+  Mat E = A * B;
+  Real m = 0;
+  for (int i = 0; i < N; ++i)
+    for (int j = 0; j < N; ++j) {
+      if (is_rot_entry(i, j)) continue;
+      if (bad(P(i, j)) || bad(E(i, j))) return std::numeric_limits<Real>::infinity();
+      Real bound = 0;
+      for (int k = 0; k < N; ++k) bound += (std::fabs(A(i, k)) + (is_rot_entry(i, k) ? 1 : 0)) * (std::fabs(B(k, j)) + (is_rot_entry(k, j) ? 1 : 0));
+      Real d = std::fabs(P(i, j) - E(i, j));
+      if (d == 0) continue;
+      if (bound == 0) return std::numeric_limits<Real>::infinity();
+      if (d / bound > m) m = d / bound;
+    }
   return m;
 }
 
